@@ -62,11 +62,76 @@ def _typedef_two_files_noinc(rng, files, victim):
 
 
 def _same_name_other_dir(rng, files, victim):
-    # parseFrugal detects cycles by file NAME: a file including a file of the same name in another directory
+    # a file including a DIFFERENT file of the same name in another directory: not a cycle; rejected
+    # because includes and generated code are named after the file name (repaired C11-K14: the
+    # diagnostic used to be 'Circular include')
     d = os.path.dirname(victim)
     base = os.path.basename(victim)
     files[os.path.join(d, "zqsub", base)] = "struct ZqDeep {}\n"
     files[victim] = 'include "zqsub/%s"\n' % base + files[victim]
+
+
+def _same_name_cycle(rng, files, victim):
+    # a real cycle through two files of the same name: victim -> zqsub/victim -> ../victim
+    d = os.path.dirname(victim)
+    base = os.path.basename(victim)
+    files[os.path.join(d, "zqsub", base)] = 'include "../%s"\nstruct ZqDeep {}\n' % base
+    files[victim] = 'include "zqsub/%s"\n' % base + files[victim]
+
+
+def _same_name_via_third(rng, files, victim):
+    # victim -> zqmid.frugal -> zqsub/victim (another file of the victim's name further down the chain)
+    d = os.path.dirname(victim)
+    base = os.path.basename(victim)
+    files[os.path.join(d, "zqsub", base)] = "struct ZqDeep {}\n"
+    files[os.path.join(d, "zqmid.frugal")] = 'include "zqsub/%s"\nstruct ZqMid {}\n' % base
+    files[victim] = 'include "zqmid.frugal"\n' + files[victim]
+
+
+def _self_by_other_spelling(rng, files, victim):
+    # the file includes itself under a path that is spelled differently: a cycle by cleaned path
+    base = os.path.basename(victim)
+    files[victim] = 'include "zqnodir/../%s"\n' % base + files[victim]
+
+
+def _same_name_off_chain(rng, files, victim):
+    # two different files of one name which are never on one chain of includes: accepted
+    d = os.path.dirname(victim)
+    files[os.path.join(d, "zqp", "zqcommon.frugal")] = "struct ZqP {}\nconst i32 zqk = 1\n"
+    files[os.path.join(d, "zqq", "zqcommon.frugal")] = "struct ZqQ {}\nconst string zqk = \"q\"\n"
+    files[os.path.join(d, "zqa.frugal")] = 'include "zqp/zqcommon.frugal"\nstruct ZqA { 1: zqcommon.ZqP p, 2: i32 k = zqcommon.zqk }\n'
+    files[os.path.join(d, "zqb.frugal")] = 'include "zqq/zqcommon.frugal"\nstruct ZqB { 1: zqcommon.ZqQ q, 2: string k = zqcommon.zqk }\n'
+    files[victim] = 'include "zqa.frugal"\ninclude "zqb.frugal"\n' + files[victim] + "\nstruct ZqAB { 1: zqa.ZqA a, 2: zqb.ZqB b }\n"
+
+
+def _diamond(rng, files, victim):
+    # the same file reached along two chains (and once more under another spelling): no cycle
+    d = os.path.dirname(victim)
+    files[os.path.join(d, "zqleaf.frugal")] = "struct ZqLeaf {}\n"
+    files[os.path.join(d, "zql.frugal")] = 'include "zqleaf.frugal"\nstruct ZqL { 1: zqleaf.ZqLeaf a }\n'
+    files[os.path.join(d, "zqr.frugal")] = 'include "zqnodir/../zqleaf.frugal"\nstruct ZqR { 1: zqleaf.ZqLeaf a }\n'
+    files[victim] = 'include "zql.frugal"\ninclude "zqr.frugal"\ninclude "zqleaf.frugal"\n' + files[victim]
+
+
+# declarations the value mutations lean on (every kind of type a value can be declared with, through typedefs
+# and an include)
+VFAR = ('enum ZqColor { RED = 1, GREEN = 2 }\nstruct ZqFarS { 1: i32 a, 2: list<string> l, 3: ZqColor c = ZqColor.RED }\n'
+        'typedef ZqFarS ZqFarT\ntypedef list<ZqColor> ZqColors\nconst i32 zqFarInt = 3\nconst string zqFarStr = "s"\n'
+        'const ZqFarS zqFarStruct = {"a": 1}\nconst list<i32> zqFarList = [1]\ntypedef i16 ZqShort\n'
+        'union ZqFarU { 1: i32 i, 2: string s }\nexception ZqFarX { 1: string m = "boom" }\n')
+VNEAR = ('enum ZqE { A = 1, B = 5 }\nenum ZqF { A = 1 }\ntypedef i32 ZqInt\ntypedef ZqInt ZqInt2\ntypedef list<ZqInt2> ZqInts\n'
+         'typedef map<string, ZqInts> ZqTable\ntypedef ZqE ZqE2\nstruct ZqIn { 1: i32 n, 2: ZqE2 e }\n'
+         'struct ZqS { 1: ZqInt2 a, 2: string s, 3: ZqInts l, 4: ZqIn inner, 5: zqvinc.ZqFarT far, 6: set<i8> tiny, 7: double d, 8: binary b, 9: bool flag }\n'
+         'typedef ZqS ZqS2\nconst i32 zqOne = 1\nconst i64 zqBig = 5000000000\nconst double zqHalf = 0.5\nconst string zqStr = "x"\n'
+         'const bool zqYes = true\nconst ZqInts zqL = [1, 2]\nconst ZqS zqStruct = {"a": 1}\nconst ZqE zqEn = ZqE.B\n')
+
+
+def _values(text):
+    def f(rng, files, victim):
+        d = os.path.dirname(victim)
+        files[os.path.join(d, "zqvinc.frugal")] = VFAR
+        files[victim] = 'include "zqvinc.frugal"\n' + files[victim] + "\n" + VNEAR + text + "\n"
+    return f
 
 
 VALID = [
@@ -80,8 +145,31 @@ VALID = [
                                "enum ZqLocal { A, B }\nconst ZqLocal zql = ZqLocal.B\nconst i32 zqe = zqd"), None),
     ("v_typedef_chain", _append("typedef i32 ZqT1\ntypedef ZqT3 ZqT4\ntypedef ZqT2 ZqT3\ntypedef ZqT1 ZqT2\n"
                                 "typedef map<string, list<ZqT4>> ZqT5\nstruct ZqUses { 1: ZqT5 a, 2: ZqT4 b }"), None),
-    # no cycle: a file including a different file of the same name (known finding C11-K14: rejected)
-    ("v_include_same_name_other_dir", _same_name_other_dir, None),
+    ("v_same_name_off_chain", _same_name_off_chain, None),
+    ("v_include_diamond", _diamond, None),
+    ("v_values_base", _values('const i8 zq1 = -128\nconst byte zq2 = 127\nconst i16 zq3 = 32767\nconst i32 zq4 = -2147483648\n'
+                              'const i64 zq5 = 9223372036854775807\nconst double zq6 = 7\nconst double zq7 = -1.5e3\n'
+                              'const string zq8 = "s"\nconst binary zq9 = \'b\'\nconst bool zq10 = false\nconst ZqInt2 zq11 = 2147483647\n'
+                              'const zqvinc.ZqShort zq12 = -32768'), None),
+    ("v_values_containers", _values('const list<i32> zq1 = []\nconst set<string> zq2 = ["a", "b"]\nconst map<string, list<i32>> zq3 = {"a": [1, 2], "b": []}\n'
+                                    'const ZqTable zq4 = {"k": [1], zqStr: zqL}\nconst map<i32, map<i32, bool>> zq5 = {1: {2: true}}\n'
+                                    'const map<ZqE, string> zq6 = {ZqE.A: "a", 5: "b"}\nconst zqvinc.ZqColors zq7 = [1, zqvinc.ZqColor.GREEN, 2]\n'
+                                    'const list<ZqS> zq8 = [{"a": 1}, zqStruct, {}]\nconst map<string, string> zq9 = {}'), None),
+    ("v_values_enums", _values('const ZqE zq1 = 5\nconst ZqE2 zq2 = ZqE.A\nconst ZqE2 zq3 = 1\nconst zqvinc.ZqColor zq4 = zqvinc.ZqColor.RED\n'
+                               'const zqvinc.ZqColor zq5 = 2\nconst ZqE zq6 = zqEn'), None),
+    ("v_values_structs", _values('const ZqS zq1 = {"a": 1, "s": "t", "l": [1, 2], "inner": {"n": 1, "e": ZqE.B}, "far": {"a": 2, "l": ["x"], "c": 1}, '
+                                 '"tiny": [-128, 127], "d": 1, "b": "bin", "flag": true}\n'
+                                 'const ZqS2 zq2 = {a: zqOne, s: zqStr, nosuchfield: [1, "two", zqnope], "alsonot": 5}\n'
+                                 'const zqvinc.ZqFarT zq3 = {"a": zqvinc.zqFarInt, "c": zqvinc.ZqColor.GREEN}\n'
+                                 'const zqvinc.ZqFarU zq4 = {"s": "u"}\nconst zqvinc.ZqFarX zq5 = {"m": zqvinc.zqFarStr}\n'
+                                 'const zqvinc.ZqFarS zq6 = zqvinc.zqFarStruct'), None),
+    ("v_values_refs", _values('const i64 zq1 = zqOne\nconst i8 zq2 = zqBig\nconst double zq3 = zqOne\nconst double zq4 = zqHalf\n'
+                              'const binary zq5 = zqStr\nconst bool zq6 = zqYes\nconst list<i64> zq7 = zqL\nconst list<i32> zq8 = zqvinc.zqFarList\n'
+                              'const ZqS2 zq9 = zqStruct\nconst i32 zq10 = zq11\nconst i32 zq11 = 4'), None),
+    ("v_values_defaults", _values('struct ZqD { 1: i32 a = 1, 2: optional string s = "x", 3: ZqInts l = [1], 4: ZqE e = ZqE.A, 5: ZqE2 e2 = 5, '
+                                  '6: ZqIn inner = {"n": 2}, 7: zqvinc.ZqFarT far = {"c": 2}, 8: double d = zqOne, 9: map<string, i32> m = {"a": zqOne}, 10: bool b = zqYes }\n'
+                                  'union ZqDU { 1: i32 a = 1, 2: string s = "u" }\nexception ZqDX { 1: string m = "boom", 2: i16 code = -1 }\n'
+                                  'service ZqDSv { void f(1: i32 a = 5, 2: list<string> l = ["a"], 3: ZqS s = {"a": 1}) throws (1: ZqDX x = {"code": 3}) }'), None),
     ("v_same_ids_other_structs", _append("struct ZqP { 1: i32 a }\nstruct ZqQ { 1: i32 a }\n"
                                          "service ZqTwo { void f(1: i32 a) void g(1: i32 a) }"), None),
 ]
@@ -155,6 +243,11 @@ INVALID = [
     ("extends_into_cycle", _append("service ZqZ extends ZqA {}\nservice ZqA extends ZqB {}\nservice ZqB extends ZqA {}"),
      r"Circular extends ZqZ$"),
     ("include_cycle", _include_cycle, r"Circular include: \["),
+    ("include_same_name_other_dir", _same_name_other_dir,
+     r"Duplicate file name (\w+): \S*zqsub/\1\.frugal is included by way of \S*\1\.frugal \(includes and generated code are named after the file name\)$"),
+    ("include_same_name_cycle", _same_name_cycle, r"Duplicate file name (\w+): \S*zqsub/\1\.frugal is included by way of "),
+    ("include_same_name_via_third", _same_name_via_third, r"Include zqmid\.frugal: Include zqsub/(\w+)\.frugal: Duplicate file name \1: "),
+    ("include_self_other_spelling", _self_by_other_spelling, r"Include zqnodir/\.\./(\w+)\.frugal: Circular include: \[(\w+ )*\1 \1\]$"),
     ("include_self", lambda rng, files, victim: files.__setitem__(victim, 'include "%s"\n' % os.path.basename(victim) + files[victim]),
      r"Circular include: \["),
     ("include_missing", _append('include "zqnothere.frugal"'), r"open .*zqnothere\.frugal: no such file or directory$"),
@@ -181,19 +274,113 @@ INVALID = [
     ("const_ref_4", _append("const i32 zqa = x.y.z.w"), r"Invalid constant name x\.y\.z\.w$"),
 ]
 
-# constants whose value does not fit the declared type (recorded / repaired: see known_findings.json)
-CONST_MISMATCH = [
-    ("const_string_for_int", _append('const i32 zqx = "hello"')),
-    ("const_int_for_list", _append("const list<i32> zqx = 5")),
-    ("const_int_for_struct", _append("struct ZqS { 1: i32 a }\nconst ZqS zqx = 5")),
-    ("const_list_for_map", _append("const map<string, i32> zqx = [1, 2]")),
-    ("const_map_for_list", _append('const list<string> zqx = {"a": "b"}')),
-    ("const_bad_element", _append('const list<i32> zqx = [1, "two", 3]')),
-    ("const_string_for_double", _append('const double zqx = "1.5"')),
-    ("const_int_for_string", _append("const string zqx = 7")),
-    ("const_nested_dangling_ref", _append("const list<i32> zqx = [zqnope]")),
+# values which do not conform to the declared type (repaired C11-K13): (name, declarations, regex of the diagnostic)
+def _iv(what, expected, got):
+    return r"Invalid value for %s: expected %s, got %s$" % (what, expected, got)
+
+
+VALUE_MISMATCH = [
+    # literals of the wrong kind for every base type
+    ("const_string_for_int", 'const i32 zqx = "hello"', _iv("constant zqx", "i32", "a string")),
+    ("const_double_for_int", "const i64 zqx = 1.5", _iv("constant zqx", "i64", "a double")),
+    ("const_bool_for_int", "const i16 zqx = true", _iv("constant zqx", "i16", "a bool")),
+    ("const_list_for_int", "const i8 zqx = [1]", _iv("constant zqx", "i8", "a list")),
+    ("const_map_for_int", "const byte zqx = {}", _iv("constant zqx", "byte", "a map")),
+    ("const_int_for_bool", "const bool zqx = 1", _iv("constant zqx", "bool", "integer 1")),
+    ("const_string_for_bool", 'const bool zqx = "true"', _iv("constant zqx", "bool", "a string")),
+    ("const_string_for_double", 'const double zqx = "1.5"', _iv("constant zqx", "double", "a string")),
+    ("const_bool_for_double", "const double zqx = false", _iv("constant zqx", "double", "a bool")),
+    ("const_int_for_string", "const string zqx = 7", _iv("constant zqx", "string", "integer 7")),
+    ("const_double_for_binary", "const binary zqx = 7.5", _iv("constant zqx", "binary", "a double")),
+    ("const_list_for_string", 'const string zqx = ["a"]', _iv("constant zqx", "string", "a list")),
+    ("const_typedef_wrong_kind", 'const ZqInt2 zqx = "one"', _iv("constant zqx", "i32", "a string")),
+    # integers out of the range of the type
+    ("const_i8_high", "const i8 zqx = 128", _iv("constant zqx", "i8", "integer 128")),
+    ("const_byte_low", "const byte zqx = -129", _iv("constant zqx", "byte", "integer -129")),
+    ("const_i16_high", "const i16 zqx = 32768", _iv("constant zqx", "i16", "integer 32768")),
+    ("const_i32_low", "const i32 zqx = -2147483649", _iv("constant zqx", "i32", "integer -2147483649")),
+    ("const_typedef_range", "const zqvinc.ZqShort zqx = 40000", _iv("constant zqx", "i16", "integer 40000")),
+    ("const_set_element_range", "const ZqS zqx = {\"tiny\": [1, 300]}", _iv("constant zqx", "i8", "integer 300")),
+    # containers
+    ("const_int_for_list", "const list<i32> zqx = 5", _iv("constant zqx", "list<i32>", "integer 5")),
+    ("const_map_for_list", 'const list<string> zqx = {"a": "b"}', _iv("constant zqx", "list<string>", "a map")),
+    ("const_string_for_set", 'const set<string> zqx = "a"', _iv("constant zqx", "set<string>", "a string")),
+    ("const_list_for_map", "const map<string, i32> zqx = [1, 2]", _iv("constant zqx", "map<string,i32>", "a list")),
+    ("const_int_for_typedef_list", "const ZqInts zqx = 1", _iv("constant zqx", "list<ZqInt2>", "integer 1")),
+    ("const_bad_element", 'const list<i32> zqx = [1, "two", 3]', _iv("constant zqx", "i32", "a string")),
+    ("const_bad_nested_element", 'const list<list<i32>> zqx = [[1], [2, [3]]]', _iv("constant zqx", "i32", "a list")),
+    ("const_bad_map_key", 'const map<i32, string> zqx = {1: "a", "b": "b"}', _iv("constant zqx", "i32", "a string")),
+    ("const_bad_map_value", 'const map<string, i32> zqx = {"a": 1, "b": "c"}', _iv("constant zqx", "i32", "a string")),
+    ("const_bad_typedef_table", 'const ZqTable zqx = {"k": [1, true]}', _iv("constant zqx", "i32", "a bool")),
+    ("const_nested_dangling_ref", "const list<i32> zqx = [zqnope]", r"Referenced constant zqnope not found$"),
+    ("const_nested_dangling_include", "const map<string, i32> zqx = {\"a\": zqnoinc.k}", r"Include zqnoinc not found$"),
+    ("const_nested_dangling_far", "const list<i32> zqx = [zqvinc.nope]", r"Referenced constant nope from include zqvinc not found$"),
+    ("const_nested_bad_enum_ref", "const list<zqvinc.ZqColor> zqx = [zqvinc.ZqColor.BLUE]", r"Invalid constant name zqvinc\.ZqColor\.BLUE$"),
+    # enums
+    ("const_enum_undeclared_number", "const ZqE zqx = 7", _iv("constant zqx", "ZqE", "integer 7")),
+    ("const_enum_string", 'const ZqE zqx = "A"', _iv("constant zqx", "ZqE", "a string")),
+    ("const_enum_typedef_number", "const ZqE2 zqx = 2", _iv("constant zqx", "ZqE", "integer 2")),
+    ("const_enum_other_enum", "const ZqE zqx = ZqF.A", _iv("constant zqx", "ZqE", r"identifier ZqF\.A")),
+    ("const_enum_far_number", "const zqvinc.ZqColor zqx = 3", _iv("constant zqx", r"zqvinc\.ZqColor", "integer 3")),
+    ("const_enum_value_for_int", "const i32 zqx = ZqE.A", _iv("constant zqx", "i32", r"identifier ZqE\.A")),
+    ("const_enum_far_for_near", "const ZqE zqx = zqvinc.ZqColor.RED", _iv("constant zqx", "ZqE", r"identifier zqvinc\.ZqColor\.RED")),
+    ("const_enum_map", "const ZqE zqx = {}", _iv("constant zqx", "ZqE", "a map")),
+    # structs
+    ("const_int_for_struct", "const ZqS zqx = 5", _iv("constant zqx", "ZqS", "integer 5")),
+    ("const_list_for_struct", "const ZqS2 zqx = []", _iv("constant zqx", "ZqS", "a list")),
+    ("const_struct_bad_field", 'const ZqS zqx = {"a": "one"}', _iv("constant zqx", "i32", "a string")),
+    ("const_struct_bad_ident_key_field", "const ZqS zqx = {s: 1}", _iv("constant zqx", "string", "integer 1")),
+    ("const_struct_int_key", "const ZqS zqx = {1: 2}", r"Invalid value for constant zqx: expected a field name of ZqS, got integer 1$"),
+    ("const_struct_list_key", 'const ZqS zqx = {["a"]: 2}', r"Invalid value for constant zqx: expected a field name of ZqS, got a list$"),
+    ("const_struct_nested_bad", 'const ZqS zqx = {"inner": {"n": "x"}}', _iv("constant zqx", "i32", "a string")),
+    ("const_struct_nested_enum_bad", 'const ZqS zqx = {"inner": {"e": 3}}', _iv("constant zqx", "ZqE", "integer 3")),
+    ("const_struct_far_bad", 'const ZqS zqx = {"far": {"l": [1]}}', _iv("constant zqx", "string", "integer 1")),
+    ("const_struct_far_enum_bad", 'const zqvinc.ZqFarT zqx = {"c": ZqE.A}', _iv("constant zqx", "ZqColor", r"identifier ZqE\.A")),
+    ("const_union_bad", 'const zqvinc.ZqFarU zqx = {"i": "s"}', _iv("constant zqx", "i32", "a string")),
+    ("const_exception_bad", 'const zqvinc.ZqFarX zqx = {"m": 1}', _iv("constant zqx", "string", "integer 1")),
+    ("const_list_of_struct_bad", 'const list<ZqS> zqx = [{"a": 1}, 2]', _iv("constant zqx", "ZqS", "integer 2")),
+    # identifiers naming a constant of another kind
+    ("const_ref_int_for_string", "const string zqx = zqOne", _iv("constant zqx", "string", "identifier zqOne")),
+    ("const_ref_string_for_int", "const i32 zqx = zqStr", _iv("constant zqx", "i32", "identifier zqStr")),
+    ("const_ref_double_for_int", "const i32 zqx = zqHalf", _iv("constant zqx", "i32", "identifier zqHalf")),
+    ("const_ref_int_for_bool", "const bool zqx = zqOne", _iv("constant zqx", "bool", "identifier zqOne")),
+    ("const_ref_list_for_set", "const set<i32> zqx = zqL", _iv("constant zqx", "set<i32>", "identifier zqL")),
+    ("const_ref_list_for_int", "const i32 zqx = zqL", _iv("constant zqx", "i32", "identifier zqL")),
+    ("const_ref_struct_for_list", "const ZqInts zqx = zqStruct", _iv("constant zqx", "list<ZqInt2>", "identifier zqStruct")),
+    ("const_ref_enum_const_for_int", "const i32 zqx = zqEn", _iv("constant zqx", "i32", "identifier zqEn")),
+    ("const_ref_int_for_enum", "const ZqE zqx = zqOne", _iv("constant zqx", "ZqE", "identifier zqOne")),
+    ("const_ref_far_struct_for_near", "const ZqS zqx = zqvinc.zqFarStruct", _iv("constant zqx", "ZqS", r"identifier zqvinc\.zqFarStruct")),
+    ("const_ref_far_string_for_int", "const list<i32> zqx = [zqvinc.zqFarStr]", _iv("constant zqx", "i32", r"identifier zqvinc\.zqFarStr")),
+    ("const_ref_in_struct", 'const ZqS zqx = {"s": zqOne}', _iv("constant zqx", "string", "identifier zqOne")),
+    # default values
+    ("default_string_for_int", 'struct ZqD { 1: i32 a = "x" }', _iv("field a of struct ZqD", "i32", "a string")),
+    ("default_int_for_list", "struct ZqD { 1: i32 ok = 1, 2: list<i32> a = 5 }", _iv("field a of struct ZqD", "list<i32>", "integer 5")),
+    ("default_range", "struct ZqD { 1: i8 a = 1000 }", _iv("field a of struct ZqD", "i8", "integer 1000")),
+    ("default_enum_number", "struct ZqD { 1: ZqE2 a = 9 }", _iv("field a of struct ZqD", "ZqE", "integer 9")),
+    ("default_struct_bad", 'struct ZqD { 1: ZqIn a = {"n": []} }', _iv("field a of struct ZqD", "i32", "a list")),
+    ("default_dangling_ref", "struct ZqD { 1: i32 a = zqnope }", r"Referenced constant zqnope not found$"),
+    ("default_dangling_nested_ref", "struct ZqD { 1: list<i32> a = [1, zqnope] }", r"Referenced constant zqnope not found$"),
+    ("default_ref_wrong_kind", "struct ZqD { 1: string a = zqOne }", _iv("field a of struct ZqD", "string", "identifier zqOne")),
+    ("default_union", 'union ZqD { 1: i32 a, 2: string s = 1 }', _iv("field s of struct ZqD", "string", "integer 1")),
+    ("default_exception", 'exception ZqD { 1: string m = ["x"] }', _iv("field m of struct ZqD", "string", "a list")),
+    ("default_argument", 'service ZqDSv { void f(1: i32 a = "x") }', _iv(r"field a of method ZqDSv\.f", "i32", "a string")),
+    ("default_argument_container", "service ZqDSv { void g() void f(1: i32 ok = 1, 2: map<string, i32> a = {\"k\": \"v\"}) }",
+     _iv(r"field a of method ZqDSv\.f", "i32", "a string")),
+    ("default_throws", 'exception ZqDX {}\nservice ZqDSv { void f() throws (1: ZqDX x = 5) }',
+     _iv(r"field x of method ZqDSv\.f", "ZqDX", "integer 5")),
+    ("default_far_struct", 'struct ZqD { 1: zqvinc.ZqFarT a = {"a": "x"} }', _iv("field a of struct ZqD", "i32", "a string")),
 ]
-CONST_RX = r"Invalid value|Referenced constant zqnope not found"
+INVALID += [(n, _values(text), rx) for n, text, rx in VALUE_MISMATCH]
+
+# invalid programs validation is known to accept (known_findings.json; the signature is given to ctx.violation so that
+# exactly this is reported as KNOWN-FINDING): constants defined in terms of each other in a circle -- every reference
+# names a constant of the right kind, the generators write the references out (Go: initialization cycle)
+KNOWN_ACCEPTED = {
+    "const_ref_cycle": {"class": "invalid_accepted", "kind": "const_ref_cycle"},
+}
+INVALID += [
+    ("const_ref_cycle", _append("const i32 zqca = zqcb\nconst i32 zqcb = zqcc\nconst i32 zqcc = zqca"), r"[Cc]ircular"),
+]
 
 
 def reachable(files, main):
@@ -216,7 +403,7 @@ def make_case(rng, idx, quota):
     base = G.valid_program(rng, exotic=False, size=size)
     files = dict(base["files"])
     main = base["main"]
-    pool = VALID + INVALID + [(n, f, "CONST") for n, f in CONST_MISMATCH]
+    pool = VALID + INVALID
     # every mutation at least once per run, then at random; a share of untouched and text-mutated programs
     if idx < len(pool):
         name, fn, expect = pool[idx]
@@ -236,7 +423,8 @@ def make_case(rng, idx, quota):
     fn(rng, files, victim)
     # a second, independent valid addition now and then (more services / typedefs around the defect)
     if rng.random() < 0.3:
-        n2, f2, _ = rng.choice([VALID[0], VALID[2], VALID[4], VALID[6]])
+        n2, f2, _ = rng.choice([v for v in VALID if v[0] in ("v_extends_chain", "v_throws_typedef", "v_typedef_chain",
+                                                                 "v_same_ids_other_structs")])
         if n2 != name:
             f2(rng, files, victim)
     return {"files": files, "main": main, "mutation": name, "expect": expect, "victim": victim}
@@ -384,7 +572,7 @@ def run_harness(reqs, timeout=900):
 
 def run(ctx, quick):
     rng = ctx.rng
-    n = 170 if quick else 1400
+    n = 230 if quick else 1700
     cases = [make_case(rng, i, n) for i in range(n)]
     wd = os.path.join(ctx.rundir, "validate")
     reqs = [{"op": "validate", "dir": os.path.join(wd, str(i)), "files": c["files"], "main": c["main"]}
@@ -420,22 +608,12 @@ def run(ctx, quick):
         exp = c["expect"]
         if exp is None and not ok:
             viol += 1
-            sig = None
-            if c["mutation"] == "v_include_same_name_other_dir" and re.search(r"Circular include: \[", err):
-                sig = {"class": "valid_rejected", "kind": "include_same_name_other_dir"}
-            ctx.violation("C11 oracle: valid program (%s) rejected: %s" % (c["mutation"], err[:300]), rep, signature=sig)
-        elif exp == "CONST":
-            if ok:
-                viol += 1
-                ctx.violation("C11 oracle: invalid input (semantic:const_type_mismatch, %s) accepted by validation" % c["mutation"],
-                              rep, signature={"class": "invalid_accepted", "kind": "semantic:const_type_mismatch"})
-            elif not re.search(CONST_RX, err):
-                viol += 1
-                ctx.violation("C11 oracle: %s rejected with an unrelated diagnostic: %s" % (c["mutation"], err[:300]), rep)
+            ctx.violation("C11 oracle: valid program (%s) rejected: %s" % (c["mutation"], err[:300]), rep)
         elif exp not in (None, "ANY"):
             if ok:
                 viol += 1
-                ctx.violation("C11 oracle: invalid input (%s) accepted by validation" % c["mutation"], rep)
+                ctx.violation("C11 oracle: invalid input (%s) accepted by validation" % c["mutation"], rep,
+                              signature=KNOWN_ACCEPTED.get(c["mutation"]))
             elif not re.search(exp, err):
                 viol += 1
                 ctx.violation("C11 oracle: %s rejected with an unexpected diagnostic: %s" % (c["mutation"], err[:300]), rep)
